@@ -395,6 +395,9 @@ pub struct Environment<E: Effect> {
     next_request_id: u64,
     next_process_id: ProcessId,
 
+    // How many locals a process held when it last reported a result (see `take_locals_count`)
+    locals_counts: HashMap<ProcessId, usize>,
+
     // Effect backend and resource management
     effect_backend: Option<Box<dyn EffectBackend<E = E>>>,
     resource_ownership: HashMap<ResourceId, ProcessId>,
@@ -413,6 +416,7 @@ impl<E: Effect> Environment<E> {
             subscription_updates: HashMap::new(),
             next_request_id: 0,
             next_process_id: 0,
+            locals_counts: HashMap::new(),
             effect_backend: None,
             resource_ownership: HashMap::new(),
         }
@@ -802,6 +806,12 @@ impl<E: Effect> Environment<E> {
         Ok(request_id)
     }
 
+    /// How many locals `pid` held when it last reported a result, if it has reported one since
+    /// this was last asked. The REPL's bindings beyond that count were compiled but never stored.
+    pub fn take_locals_count(&mut self, pid: ProcessId) -> Option<usize> {
+        self.locals_counts.remove(&pid)
+    }
+
     /// Compact process locals
     pub fn compact_locals(
         &mut self,
@@ -1025,7 +1035,12 @@ impl<E: Effect> Environment<E> {
                 request_id,
                 result,
                 stats,
-            } => self.handle_result_response(request_id, result, stats),
+                process_id,
+                locals_count,
+            } => {
+                self.locals_counts.insert(process_id, locals_count);
+                self.handle_result_response(request_id, result, stats)
+            }
             Event::StatusesResponse { request_id, result } => {
                 self.handle_statuses_response(request_id, result)
             }
